@@ -38,6 +38,24 @@ SKIP_FUNCS = {
 SKIP_PREFIX = ('check_', '_check_', '_convert_result')
 
 
+def _iban_structures():
+    import stdnum.numdb
+    out = ['']
+    def walk(prefixes):
+        for e in prefixes:
+            v = e[3].get('bban')
+            if v is not None and v not in out:
+                out.append(v)
+            walk(e[4])
+    walk(stdnum.numdb.get('iban').prefixes)
+    return out
+
+
+# functions that build a value the model cannot compute symbolically (a compiled pattern from a format string):
+# tabulated by evaluating the real function on every argument that can reach it from the current data
+TABULATED = {('stdnum.iban', '_struct_to_re'): _iban_structures}
+
+
 class ModuleTranslator:
     def __init__(self, ctx, name):
         self.ctx = ctx
@@ -61,7 +79,9 @@ class ModuleTranslator:
         self.consts = {}             # name -> (lean def text)
         self.const_types = {}
         self.outputs = []            # lean text of functions, in dependency order
+        self.disp_outputs = []       # functions that (transitively) dispatch to other modules: second file
         self.deps = set()
+        self.disp_deps = set()
         self.report = {}
         self.in_progress = set()
         self.dispatchers = {}
@@ -106,7 +126,7 @@ class ModuleTranslator:
             import stdnum.numdb
             for rname, obj in stdnum.numdb._open_databases.items():
                 if obj is value:
-                    return self.ctx.registry_ref(rname, self), 'numdb'
+                    return self.ctx.registry_ref(rname, ft), 'numdb'
             raise Unsupported('registry object %s of unknown origin' % name)
         if t in ('str', 'int', 'bool', 'none') and (not isinstance(value, str) or len(value) <= 40):
             return lean_value(value, t), t
@@ -115,7 +135,7 @@ class ModuleTranslator:
         owner = self.ctx.mods[owner_mod]
         owner.ensure_const(name, value, t)
         if owner_mod != self.name:
-            self.deps.add(owner_mod)
+            ft.fdeps.add(owner_mod)
         return 'Gen.%s.%s' % (owner.ns, mangle(name)), t
 
     def ensure_const(self, name, value, t):
@@ -210,6 +230,7 @@ class ModuleTranslator:
 
     def dispatch_call(self, mcode, meth, e, ft):
         """call `meth` on a module-typed value: a generated local dispatch function over the module universe"""
+        ft.sig.in_disp = True
         uni = self.module_universe()
         sigs = []
         for mn in uni:
@@ -258,11 +279,11 @@ class ModuleTranslator:
                     call = 'do let r__ ← %s; pure %s' % (call, par(ft.coerce('r__', sig.rtype, rt)))
                 lines.append('  | "%s" => %s' % (mn, call))
                 if sig.modname != self.name:
-                    self.deps.add(sig.modname)
+                    ft.fdeps.add(sig.modname)
                 ft.sig.calls.add('%s:%s' % (sig.modname, sig.name))
             lines.append('  | _ => Py.raise .attributeError')
             self.dispatchers[key] = (name, today, '\n'.join(lines))
-            self.outputs.append('\n'.join(lines))
+            self.disp_outputs.append('\n'.join(lines))
         name, today, _ = self.dispatchers[key]
         if today:
             ft.uses_today = True
@@ -390,7 +411,7 @@ class ModuleTranslator:
                 if t != 'str':
                     raise Unsupported('get_cc_module argument type')
                 self.ctx.cc_table(e.args[1].value)
-                self.deps.add('__ccmods__')
+                ft.fdeps.add('__ccmods__')
                 return ('(Gen.ccmods.get_cc_module_%s %s)' % (e.args[1].value, par(v)), 'opt[module]')
             raise Unsupported('get_cc_module with non-literal name')
         if isinstance(obj, types.FunctionType):
@@ -400,7 +421,7 @@ class ModuleTranslator:
     def call_module_func(self, target, meth, e, ft):
         if target == 'stdnum.numdb' and meth == 'get':
             if len(e.args) == 1 and isinstance(e.args[0], ast.Constant) and isinstance(e.args[0].value, str) and not e.keywords:
-                return (self.ctx.registry_ref(e.args[0].value, self), 'numdb')
+                return (self.ctx.registry_ref(e.args[0].value, ft), 'numdb')
             raise Unsupported('numdb.get with non-literal name')
         mod = sys.modules.get(target) or importlib.import_module(target)
         obj = getattr(mod, meth, None)
@@ -409,18 +430,24 @@ class ModuleTranslator:
         raise Unsupported('call of %s.%s' % (target, meth))
 
     def user_call(self, sig, e, ft):
+        sig = self.ctx.maybe_specialize(sig, e)
         self.ctx.ensure_translated(sig)
         if not sig.ok:
             raise Unsupported('callee %s.%s not translated' % (sig.modname, sig.name))
         given = {}
-        if len(e.args) > len(sig.params):
+        fixed = getattr(sig, 'fixed', None) or {}
+        call_params = sig.params
+        if fixed:
+            base = self.ctx.sigs[(sig.modname, sig.base_name)]
+            call_params = base.params
+        if len(e.args) > len(call_params):
             raise Unsupported('too many arguments')
-        for a, pname in zip(e.args, sig.params):
+        for a, pname in zip(e.args, call_params):
             if isinstance(a, ast.Starred):
                 raise Unsupported('star args')
             given[pname] = a
         for kw in e.keywords:
-            if kw.arg is None or kw.arg not in sig.params:
+            if kw.arg is None or kw.arg not in call_params:
                 raise Unsupported('keyword argument ' + str(kw.arg))
             given[kw.arg] = kw.value
         args = []
@@ -433,7 +460,9 @@ class ModuleTranslator:
             else:
                 raise Unsupported('missing argument ' + pname)
         if sig.modname != self.name:
-            self.deps.add(sig.modname)
+            ft.fdeps.add(sig.modname)
+        if sig.in_disp and sig.modname == self.name:
+            ft.sig.in_disp = True
         ft.sig.calls.add('%s:%s' % (sig.modname, sig.name))
         today = ''
         if sig.needs_today:
@@ -445,8 +474,39 @@ class ModuleTranslator:
         raise Unsupported('while loop')
 
     # -------------------------------------------------------------- functions
+    def translate_tabulated(self, sig, cands):
+        import regex_ser
+        from pytypes import lit_str
+        obj = getattr(self.mod, sig.name)
+        rows = []
+        for c in cands():
+            r = obj(c)
+            if not isinstance(r, re.Pattern):
+                raise Unsupported('tabulated function returned %s' % type(r).__name__)
+            rows.append('(%s, %s)' % (lit_str(c), regex_ser.regex_to_lean(r.pattern, r.flags)))
+        nm = mangle(sig.name)
+        code = ('def %s_table : List (Str × Re.Pattern) := [%s]\n\n'
+                '/-- tabulated: the real function evaluated on every argument the current registry can supply;\n'
+                'any other argument is outside the model (`.other`) -/\n'
+                'def %s (%s : Str) : R Re.Pattern := do\n  match Py.dictGet? %s_table %s with\n  | some p => return p\n  | none => Py.raise .other'
+                % (nm, ',\n  '.join(rows), nm, mangle(sig.params[0]), nm, mangle(sig.params[0])))
+        sig.rtype = 'regex'
+        sig.ok = True
+        sig.done = True
+        self.outputs.append(code)
+        self.report[sig.name] = 'ok (tabulated)'
+
     def translate_function(self, sig):
-        fn = self.funcs[sig.name]
+        if (self.name, sig.name) in TABULATED and not getattr(sig, 'fixed', None):
+            try:
+                return self.translate_tabulated(sig, TABULATED[(self.name, sig.name)])
+            except Unsupported as u:
+                sig.ok = False
+                sig.rtype = None
+                sig.reason = str(u)
+                sig.done = True
+                return
+        fn = self.funcs[sig.base_name if hasattr(sig, 'base_name') else sig.name]
         key = sig.name
         if key in self.in_progress:
             raise Unsupported('recursive function ' + key)
@@ -455,7 +515,12 @@ class ModuleTranslator:
             ft = FuncTranslator(self, fn, sig)
             code = ft.translate()
             sig.ok = True
-            self.outputs.append(code)
+            if sig.in_disp:
+                self.disp_outputs.append(code)
+                self.disp_deps |= ft.fdeps
+            else:
+                self.outputs.append(code)
+                self.deps |= ft.fdeps
             self.report[sig.name] = 'ok'
         except Unsupported as u:
             sig.ok = False
@@ -473,13 +538,41 @@ class ModuleTranslator:
             self.in_progress.discard(key)
             sig.done = True
 
+    def _import_name(self, d):
+        if d == '__ccmods__':
+            return 'ccmods'
+        if d.startswith('__db__'):
+            return 'db_' + d[6:].replace('/', '_')
+        other = self.ctx.mods[d]
+        # a module inside the dispatch closure of `other` may only use other's base file (no import cycle)
+        if other.disp_outputs and self.name in other.disp_closure():
+            return other.ns + '__b'
+        return other.ns
+
+    def disp_closure(self):
+        seen, st = set(), [d for d in self.disp_deps if d in self.ctx.mods]
+        while st:
+            d = st.pop()
+            if d in seen:
+                continue
+            seen.add(d)
+            o = self.ctx.mods[d]
+            st += [x for x in (o.deps | o.disp_deps) if x in self.ctx.mods]
+        return seen
+
     def emit(self):
-        imports = sorted(('ccmods' if d == '__ccmods__' else ('db_' + d[6:].replace('/', '_')) if d.startswith('__db__') else self.ctx.mods[d].ns)
-                         for d in self.deps if d != self.name)
-        head = 'import PyRt\n' + ''.join('import Gen.%s\n' % i for i in imports)
-        head += 'open Py\nset_option linter.unusedVariables false\nnamespace Gen.%s\n\n' % self.ns
-        body = '\n\n'.join(list(self.consts.values()) + self.outputs)
-        return head + body + '\n\nend Gen.%s\n' % self.ns
+        """{file name: text}"""
+        def head(imports, extra=''):
+            h = 'import PyRt\n' + extra + ''.join('import Gen.%s\n' % i for i in sorted(set(imports)))
+            return h + 'open Py\nset_option linter.unusedVariables false\nnamespace Gen.%s\n\n' % self.ns
+        tail = '\n\nend Gen.%s\n' % self.ns
+        base_imports = [self._import_name(d) for d in self.deps if d != self.name]
+        base_body = '\n\n'.join(list(self.consts.values()) + self.outputs)
+        if not self.disp_outputs:
+            return {self.ns + '.lean': head(base_imports) + base_body + tail}
+        disp_imports = [self._import_name(d) for d in self.disp_deps if d != self.name]
+        return {self.ns + '__b.lean': head(base_imports) + base_body + tail,
+                self.ns + '.lean': head(disp_imports, 'import Gen.%s__b\n' % self.ns) + '\n\n'.join(self.disp_outputs) + tail}
 
 
 def assigned_names_of(fn):
@@ -514,6 +607,9 @@ class Context(Ctx):
             self.cc_tables[attr] = rows
         return self.cc_tables[attr]
 
+    def _cur_ft_deps(self, ft):
+        return ft.fdeps
+
     def registry_ref(self, rname, mt):
         """Lean constant holding the parsed registry `rname` (tree produced by the real reader on the current file)"""
         if rname not in self.registries:
@@ -523,7 +619,7 @@ class Context(Ctx):
             if n > 12000:
                 raise Unsupported('registry %s too large to embed (%d entries)' % (rname, n))
             self.registries[rname] = db.prefixes
-        mt.deps.add('__db__' + rname)
+        self._cur_ft_deps(mt).add('__db__' + rname)
         return 'Gen.db_%s.db' % rname.replace('/', '_')
 
     def _walk_entries(self, prefixes):
@@ -650,6 +746,39 @@ class Context(Ctx):
             if k in self.sigs:
                 self.sigs[k].needs_today = True
 
+    def maybe_specialize(self, sig, e):
+        """`f(x, flag=False)` where `if flag:` guards a block that dispatches to other modules: use a copy of f
+        specialised to that constant (the dead block is dropped), so that modules inside the dispatch closure
+        can call it without an import cycle (iban.validate(number, check_country=False) from es.iban etc.)"""
+        if getattr(sig, 'fixed', None):
+            return sig
+        mt = self.mods[sig.modname]
+        fn = mt.funcs.get(sig.name)
+        if fn is None:
+            return sig
+        given = {}
+        for a, pname in zip(e.args, sig.params):
+            given[pname] = a
+        for kw in e.keywords:
+            if kw.arg:
+                given[kw.arg] = kw.value
+        for pname, a in given.items():
+            if pname in sig.params and isinstance(a, ast.Constant) and isinstance(a.value, bool):
+                guarded = [n for n in ast.walk(fn) if isinstance(n, ast.If) and isinstance(n.test, ast.Name) and n.test.id == pname]
+                if any(isinstance(x, ast.Name) and x.id == '_get_cc_module' for g in guarded for x in ast.walk(g)):
+                    key = (sig.modname, '%s__%s_%s' % (sig.name, pname, a.value))
+                    if key not in self.sigs:
+                        i = sig.params.index(pname)
+                        sp = FuncSig(sig.modname, key[1], sig.params[:i] + sig.params[i + 1:], sig.ptypes[:i] + sig.ptypes[i + 1:],
+                                     {k: v for k, v in sig.defaults.items() if k != pname}, None, sig.needs_today,
+                                     'Gen.%s.%s' % (mt.ns, mangle(key[1])))
+                        sp.done = False
+                        sp.fixed = {pname: a.value}
+                        sp.base_name = sig.name
+                        self.sigs[key] = sp
+                    return self.sigs[key]
+        return sig
+
     def ensure_translated(self, sig):
         if not sig.done:
             self.mods[sig.modname].translate_function(sig)
@@ -719,9 +848,10 @@ def main():
     written = 0
     keep = set()
     for name, mt in ctx.mods.items():
-        path = os.path.join(gen_dir, mt.ns + '.lean')
-        keep.add(os.path.abspath(path))
-        written += write_if_changed(path, mt.emit())
+        for fname, text in mt.emit().items():
+            path = os.path.join(gen_dir, fname)
+            keep.add(os.path.abspath(path))
+            written += write_if_changed(path, text)
     ccpath = os.path.join(gen_dir, 'ccmods.lean')
     keep.add(os.path.abspath(ccpath))
     written += write_if_changed(ccpath, ctx.emit_ccmods())
